@@ -14,7 +14,9 @@ from exabgp.bgp.message.update.attribute import NextHopSelf
 from exabgp.configuration.core.parser import Tokeniser
 
 # VPLS parameter maximum value (16-bit field)
-VPLS_PARAM_MAX = 0xFFFF  # Maximum value for VPLS endpoint, size, offset, and label base
+VPLS_PARAM_MAX = 0xFFFF  # Maximum value for VPLS endpoint, size and offset
+# The label base is a 3 octet label field (RFC 4761 section 3.2.2): 20 bits of label
+VPLS_LABEL_BASE_MAX = 0xFFFFF
 
 
 def vpls_endpoint(tokeniser: Tokeniser) -> int:
@@ -43,7 +45,7 @@ def vpls_offset(tokeniser: Tokeniser) -> int:
 
 def vpls_base(tokeniser: Tokeniser) -> int:
     number = int(tokeniser())
-    if number < 0 or number > VPLS_PARAM_MAX:
+    if number < 0 or number > VPLS_LABEL_BASE_MAX:
         raise ValueError('invalid l2vpn vpls label')
     return number
     # vpls.base = number
